@@ -13,7 +13,7 @@ META = {
     "outside": profiles.OUTSIDE,
 }
 
-REQUIRED_COVERS = {"any": profiles.REQUIRED["C14"]}
+REQUIRED_COVERS = {"any": profiles.REQUIRED["C14"] + ["second-run"]}
 
 
 def sim(p, ctx):
@@ -23,6 +23,25 @@ def sim(p, ctx):
 
 def obligations(tier, seed):
     return profiles.obligations_for("C14", tier)
+
+
+def repeat(p, ctx):
+    """The relation also holds in a second simulate() on the same project (state of the previous run must not leak)."""
+    from props.simcore import run_sim
+    from model.family import sim_kwargs
+    from model.observe import Observer
+    from model.stubs import numpy_stub
+    import warnings
+
+    M = run_sim(p, ctx)
+    obs = Observer(M)
+    with numpy_stub(ctx.symbolic), obs.installed(), warnings.catch_warnings():
+        warnings.simplefilter("ignore")
+        ok, r = ctx.call(M.project.simulate, **sim_kwargs(M))
+    M.obs = obs
+    if ok:
+        oracles.c14(M, ctx)
+        ctx.cover("second-run")
 
 
 def unit(p, ctx):
@@ -91,6 +110,9 @@ _sim_obligations = obligations
 def obligations(tier, seed):
     obs = _sim_obligations(tier, seed)
     thorough = tier == "thorough"
+    for ob in list(obs):
+        if "/fs" in ob["name"] and ("wps=2" in ob["name"] or thorough):
+            obs.append(dict(ob, harness="repeat", name="repeat/" + ob["name"]))
     for n in range(0, 4 if thorough else 3 + 1):
         for rounds in ((1, 2, 3) if n <= 2 or thorough else (1, 2)):
             params = [["r%d_%d" % (r, i), 0, 3] for r in range(rounds) for i in range(n)]
